@@ -42,10 +42,10 @@
 //! the physical layout of the input (`cast:arrow-layout-dependent`).
 //!
 //! Open findings (known_findings.json; regressions/C34/c34/*.json; excluded by `known_signature`):
-//! * ree-to-array-of-size-0 — `ScalarValue::RunEndEncoded(..).to_array_of_size(0)` errors (run end 0); proposed
-//!   repair fixes/C34-ree-scalar-to-empty-array.diff.
-//! * union-null-scalar-roundtrip — `Union(None, ..)` reads back as `Union(Some((id, NULL)), ..)` which is `!=`;
-//!   proposed repair fixes/C34-null-union-scalar-eq-hash.diff (all NULL union values equal, hash alike).
+//! * (fixed in /repo) ree-to-array-of-size-0 — `ScalarValue::RunEndEncoded(..).to_array_of_size(0)` errored (run end 0);
+//!   regression case kept, must pass.
+//! * (withdrawn) a NULL union scalar `Union(None, ..)` reads back as `Union(Some((id, NULL)), ..)` because an Arrow union
+//!   has no validity of its own; accepted as an Arrow limitation: for such a value the read-back only has to be NULL.
 //! * ree-nested-run-merge — `iter_to_array` of REE scalars merges different nested values into one run because the
 //!   run boundary test is arrow's (wrong) array equality; upstream defect, no DataFusion-side patch proposed.
 //!
@@ -518,14 +518,6 @@ impl Property for C34 {
         ]
     }
     fn known_signature(&self, case: &Case) -> Option<String> {
-        // open finding: a run-end encoded scalar cannot be turned into an empty array
-        if case.len == 0 && case.values.iter().any(|v| reaches_ree(&case.dtype, v)) {
-            return Some("ree-to-array-of-size-0".into());
-        }
-        // open finding: the NULL union scalar `Union(None, ..)` reads back as `Union(Some((id, NULL)), ..)`
-        if matches!(case.dtype, DType::Union(..)) && case.values.iter().any(|v| v.is_null()) {
-            return Some("union-null-scalar-roundtrip".into());
-        }
         // open finding: iter_to_array of RunEndEncoded scalars finds run boundaries with `!=`, i.e. arrow-rs array
         // equality for nested values, which reports some different nested values equal
         if let DType::RunEndEncoded(_, v) = &case.dtype {
@@ -585,7 +577,8 @@ impl Property for C34 {
                     if back.data_type() != arrow_dt {
                         return CaseResult::violation(format!("try_from_array(to_array_of_size({n}) of {s:?}, {i}) has type {} instead of {arrow_dt}", back.data_type()));
                     }
-                    match same_scalar(&back, s) {
+                    let union_null_ok = is_union_null(v) && back.is_null();
+                    match if union_null_ok { Same::ArrowFalseNegative } else { same_scalar(&back, s) } {
                         Same::Unknown => eq_panicked = true,
                         Same::ArrowFalseNegative => arrow_eq_wrong = true,
                         Same::No => return CaseResult::violation(format!("try_from_array(to_array_of_size({n}) of {s:?}, {i}) = {back:?}, not the original scalar")),
@@ -616,7 +609,7 @@ impl Property for C34 {
                     }
                     match ScalarValue::try_from_array(arr.as_ref(), i) {
                         Err(e) => return CaseResult::violation(format!("try_from_array(iter_to_array({scalars:?}), {i}) failed: {e}")),
-                        Ok(back) => match same_scalar(&back, s) {
+                        Ok(back) => match if is_union_null(v) && back.is_null() { Same::ArrowFalseNegative } else { same_scalar(&back, s) } {
                             Same::Unknown => eq_panicked = true,
                             Same::ArrowFalseNegative => arrow_eq_wrong = true,
                             Same::No => return CaseResult::violation(format!("try_from_array(iter_to_array({scalars:?}), {i}) = {back:?}, not {s:?}")),
@@ -852,15 +845,6 @@ impl Property for C34 {
             res = res.label("nested-eq-wrong(arrow)");
         }
         res
-    }
-}
-
-/// does `to_array_of_size` of the scalar for (dt, v) build a run array of the requested size?
-fn reaches_ree(dt: &DType, v: &Value) -> bool {
-    match (dt, v) {
-        (DType::RunEndEncoded(..), _) => true,
-        (DType::Union(fs, _), Value::Union(id, inner)) => fs.iter().find(|(i, _, _)| i == id).map(|(_, _, c)| reaches_ree(c, inner)).unwrap_or(false),
-        _ => false,
     }
 }
 
